@@ -119,13 +119,18 @@ def glued_to_torn_tail(body, before, after):
     """`body` owns no line of `after`; is it glued to the unterminated tail a killed first run left in a file that
     the second run re-opened with O_APPEND (finding torn-tail-append)? Returns the file name or None."""
     for name, old in before.items():
-        new = after.get(name)
-        if new is None or not old or old.endswith(b"\n") or not new.startswith(old):
+        if not old or old.endswith(b"\n"):
             continue
-        start = old.rfind(b"\n") + 1            # the line that straddles the end of the first run's bytes
-        end = new.find(b"\n", len(old))
-        if end >= 0 and new[start:end].endswith(body) and new[len(old):end] == body:
-            return name
+        # the re-opened file keeps its name, or - work-dir mode - has been moved to the output dir (possibly under a
+        # bumped revision) by the second run's Close(): look for the first run's bytes as a prefix under any name
+        cands = [(name, after[name])] if name in after else []
+        cands += [(k, v) for k, v in sorted(after.items()) if k != name and v.startswith(old)]
+        for k, new in cands:
+            if not new.startswith(old):
+                continue
+            end = new.find(b"\n", len(old))
+            if end >= 0 and new[len(old):end] == body:
+                return k
     return None
 
 
